@@ -468,7 +468,7 @@ func genCells(rt *rapid.T, links bool) Cells {
 		if !links {
 			st.Link, st.LinkP = "", ""
 		}
-		g := rapid.SampledFrom([]string{"a", "b", "Z", "é", "宽", "😀", "é", "👩‍🚀", "🇺🇸", "~"}).Draw(rt, "g")
+		g := rapid.SampledFrom([]string{"a", "b", "Z", "é", "宽", "😀", "e\u0301", "👩‍🚀", "🇺🇸", "~"}).Draw(rt, "g")
 		w := 1
 		switch g {
 		case "宽", "😀", "👩‍🚀", "🇺🇸":
